@@ -26,8 +26,10 @@ var (
 	hostOff = []int32{0, 1, 16, 31, 32, 33, 40, -1, math.MinInt32}
 )
 
-// opRowClass names the hazardous classes of one row of an operator program.
-func opRowClass(op, kind string, lanes int, in []int32) string {
+// opRowClass names the hazardous classes of one row of an operator program.  sh is the operand shape: in the mixed
+// shapes the scalar operand occupies one word of its slot and meets EVERY lane of the vector operand ("sv": left operand
+// scalar, "vs": right operand scalar).
+func opRowClass(op, kind, sh string, lanes int, in []int32) string {
 	var cl []string
 	add := func(s string) {
 		for _, x := range cl {
@@ -48,7 +50,14 @@ func opRowClass(op, kind string, lanes int, in []int32) string {
 		return 0
 	}
 	for l := 0; l < lanes; l++ {
-		a, b := get(0, l, lanes), get(1, l, lanes)
+		la, lb := lanes, lanes
+		if sh == "sv" {
+			la = 1
+		}
+		if sh == "vs" {
+			lb = 1
+		}
+		a, b := get(0, l, la), get(1, l, lb)
 		switch op {
 		case "/", "%", "/=", "%=":
 			if b == 0 {
@@ -124,7 +133,7 @@ func PolicyOpCases(rng *rand.Rand, limit int) []PolicyCase {
 			byClass := map[string][][][]int32{}
 			var order []string
 			for _, r := range rows {
-				cl := opRowClass(clsOp, kind, lanesOf(sh), r[0])
+				cl := opRowClass(clsOp, kind, sh, lanesOf(sh), r[0])
 				if _, ok := byClass[cl]; !ok {
 					order = append(order, cl)
 				}
@@ -148,7 +157,7 @@ func PolicyOpCases(rng *rand.Rand, limit int) []PolicyCase {
 		pc.Prog = b.program()
 		pc.Inputs = rows
 		for _, r := range rows {
-			pc.RowClass = append(pc.RowClass, opRowClass(clsOp, kind, lanesOf(sh), r[0]))
+			pc.RowClass = append(pc.RowClass, opRowClass(clsOp, kind, sh, lanesOf(sh), r[0]))
 			pc.OOB = append(pc.OOB, false)
 		}
 		out = append(out, pc)
